@@ -31,6 +31,7 @@ var profilesFor = map[string][]string{
 	"C01": {"consensus"},
 	"C02": {"selection"},
 	"C03": {"utxo"},
+	"C04": {"crash"},
 }
 
 func drawNet(r *simkit.Run, prof string) *NetCfg {
@@ -101,6 +102,7 @@ func run(r *simkit.Run) {
 		}
 	}()
 	s := &Sim{r: r, w: w, n: n, prof: prof, delivered: map[*MBlock]bool{}, doubt: map[*MBlock]bool{}, manualInv: map[*MBlock]bool{}}
+	n.onTip = func(t *MBlock) { s.announced = append(s.announced, announce{s.commits(), t}) }
 	s.CheckState("genesis")
 
 	// profile weights
@@ -115,8 +117,14 @@ func run(r *simkit.Run) {
 	case "utxo":
 		pMut, pLimit = 80, 100
 		maxTx = 6
+	case "crash":
+		pMut, pLimit = 100, 60
+		maxTx = 4
 	}
 	steps := simkit.Range(c, 15, 70, "steps")
+	if prof == "crash" {
+		steps = simkit.Range(c, 8, 40, "steps")
+	}
 	invMuts, limMuts := invalidMutations(), limitMutations()
 
 	for i := 0; i < steps; i++ {
@@ -233,6 +241,9 @@ func run(r *simkit.Run) {
 	}
 	s.CheckState("final")
 	s.CheckUtxoLive()
+	if prof == "crash" {
+		s.crashEnumerate()
+	}
 	if s.reorgs > 0 || s.judgedInv > 0 {
 		r.NonTrivial()
 	}
